@@ -350,9 +350,11 @@ func monC12(rep Rep, v *View) (writes int) {
 		if before == nil {
 			continue
 		}
-		// (a stored value ahead of the object's own generation was not written by this controller for this object - a status
-		// copied over from another object, see OpStatusRestored - and cannot be kept by a write that reports the generation reconciled)
-		if st.ObservedGeneration < before.Status.ObservedGeneration && before.Status.ObservedGeneration <= before.Generation {
+		// (a stored value that was not written by this controller for this object - a status copied over from another object,
+		// see OpStatusRestored: ahead of the object's own generation, or still the very value that step wrote - cannot be kept
+		// by a write that reports the generation reconciled)
+		foreign := before.Status.ObservedGeneration > before.Generation || (v.ForeignObs != 0 && before.Status.ObservedGeneration == v.ForeignObs)
+		if st.ObservedGeneration < before.Status.ObservedGeneration && !foreign {
 			rep.Violate("status/observed-generation-regressed", "observedGeneration %d written over stored %d%s", st.ObservedGeneration, before.Status.ObservedGeneration, ctx(v))
 		}
 		if st.ObservedGeneration != v.Set.Generation {
